@@ -235,6 +235,7 @@ func genC03(r *rand.Rand) *c03Case {
 
 func init() {
 	register("C03", func(ctx *Ctx) {
+		ctx.AddSet("desktop_session", setupDesktop(ctx))
 		n := ctx.N(960, 20000)
 		for i := 0; i < n && !ctx.Abort; i++ {
 			c := genC03(ctx.Rng)
